@@ -5,13 +5,13 @@ from harness.checks import common
 from harness.drivers import sweep
 
 
-LEVEL = 'exploration'
-
-
 def run(chk):
     q = chk.quick
     chk.rule = (
-        '1 pair (a,b): EXHAUSTIVE -- every relation (16) x every operand (16) '
+        'S1: MC_Rel -- the transcribed _image recursion (level shift, '
+        'quantification on the way up) refines PreimageC/ImageC over one pair '
+        '+ a free variable, all quantified subsets, both quantifiers, swaps. '
+        'S3: 1 pair (a,b): EXHAUSTIVE -- every relation (16) x every operand (16) '
         'x every subset of quantified variables x both quantifiers x both '
         'orders, through dd.bdd.image/preimage (names and levels) and '
         'dd.autoref.image/preimage; 2 pairs (a,b),(c,d): sampled relations '
@@ -22,7 +22,7 @@ def run(chk):
         'result against BoolFun!PreimageF / ImageF. distinct_nontrivial = '
         'distinct (order, relation, quantifier, qvars[, rename]) rows')
     chk.mc('MC_BoolFun', 'MC_BoolFun.cfg')
-    chk.mc('MC_Ops2', 'MC_Let2.cfg')     # the rename / quantify recursions used inside
+    chk.mc('MC_Rel', 'MC_Rel.cfg')       # the transcribed _image recursion refines PreimageC / ImageC
     tasks = []
     tid = 13000000
     for o in (['a', 'b'], ['b', 'a']):
